@@ -7,6 +7,7 @@
  *  -DOP=1 copy ctor, then the SOURCE is reassigned and destroyed   2 copy assignment a = b   3 self assignment a = a   4 move assignment a = move(b)
  *      5 a += a (self-referential)   6 a.replace(a, a)   7 a + b   8 substr of the whole string   9 replace without a match   10 trim with nothing to trim
  *      11 to_upper   12 left(n >= size)   13 right(n >= size)   14 clear   15 a += b   16 from_validated then mutate the source bytes
+ *      17 a + const char*   18 const char* + a   19 a + char   20 a += char   21 char32_t + a
  *  -DFAULT=<k> (C19): the j-th allocation (j < k, symbolic) of the operation throws std::bad_alloc; afterwards std::bad_alloc is what escaped, every non-target string is
  *      untouched, the target holds its previous value or is empty, everything can be destroyed and nothing leaks */
 #include "vp_harness.h"
@@ -130,6 +131,34 @@ int vp_harness_main(void) {
     vp_str_from_validated(&r, p, an); have_r = 1;
     for (uint64_t i = 0; i < MAXS; i++) if (i < an) p[i] = (uint8_t)(p[i] ^ 0x55);      /* the caller's bytes change afterwards */
     for (uint64_t i = 0; i < MAXS; i++) if (i < an) exp[i] = sa[i]; el = an; check_r = 1; }
+#elif OP == 17 || OP == 18 || OP == 19 || OP == 21
+  { /* the other concatenation overloads: string + const char*, const char* + string, string + char, char32_t + string */
+    uint8_t c0 = vp_in_u8(), c1 = vp_in_u8(); ASSUME(c0 != 0 && c0 < 0x80 && c1 != 0 && c1 < 0x80);
+    uint64_t zl = vp_in_u64(); ASSUME(zl <= 2);
+    uint8_t *z = (uint8_t *)vp_exact(zl + 1); if (zl > 0) z[0] = c0; if (zl > 1) z[1] = c1; z[zl] = 0;
+    uint32_t cp = vp_in_u32(); ASSUME(cp != 0 && cp <= 0x7FF);
+#if OP == 17
+    vp_concat_cstr(&r, &a, z); FAULT_CHECK(0);
+    for (uint64_t i = 0; i < MAXS; i++) if (i < an) exp[i] = sa[i]; if (zl > 0) exp[an] = c0; if (zl > 1) exp[an + 1] = c1; el = an + zl;
+#elif OP == 18
+    vp_cstr_concat(&r, z, &a); FAULT_CHECK(0);
+    if (zl > 0) exp[0] = c0; if (zl > 1) exp[1] = c1; for (uint64_t i = 0; i < MAXS; i++) if (i < an) exp[zl + i] = sa[i]; el = an + zl;
+#elif OP == 19
+    vp_concat_ch(&r, &a, (int8_t)c0); FAULT_CHECK(0);
+    for (uint64_t i = 0; i < MAXS; i++) if (i < an) exp[i] = sa[i]; exp[an] = c0; el = an + 1;
+#else
+    vp_c32_concat(&r, cp, &a); FAULT_CHECK(0);
+    { uint64_t k = 0; if (cp < 0x80) exp[k++] = (uint8_t)cp; else { exp[k++] = (uint8_t)(0xC0 + cp / 64u); exp[k++] = (uint8_t)(0x80 + cp % 64u); }
+      for (uint64_t i = 0; i < MAXS; i++) if (i < an) exp[k + i] = sa[i]; el = an + k; }
+#endif
+    have_r = 1; check_r = 1;
+    ASSERT(!vp_exc_pending && same(&a, sa, an, ad) && same(&b, sb, bn, bd), "concatenation leaves its string operand and every other string untouched");
+    for (uint64_t i = 0; i < 2; i++) if (i < zl) ASSERT(z[i] == (i ? c1 : c0), "the C string operand is not modified"); }
+#elif OP == 20
+  { uint8_t c0 = vp_in_u8(); ASSUME(c0 != 0 && c0 < 0x80);
+    vp_append_ch(&a, (int8_t)c0); FAULT_CHECK(1);
+    ASSERT(!vp_exc_pending && S_inv(&a.f0) && a.f0.f1 == an + 1 && same(&b, sb, bn, bd), "a += char changes only a");
+    for (uint64_t i = 0; i < MAXS; i++) if (i < an) ASSERT(a.f0.f0[i] == sa[i], "a += char: prefix"); ASSERT(a.f0.f0[an] == c0, "a += char: the appended byte"); }
 #else
 #error "unknown OP"
 #endif
@@ -138,7 +167,7 @@ int vp_harness_main(void) {
     ASSERT(S_inv(&r.f0) && r.f0.f1 == el, "the result is a valid string of the expected size");
     for (uint64_t i = 0; i < RMAX; i++) if (i < el && i < r.f0.f1) ASSERT(r.f0.f0[i] == exp[i], "the result holds the expected bytes");
     ASSERT((!a_alive || distinct_storage(&r, &a)) && (!b_alive || distinct_storage(&r, &b)), "the result owns storage distinct from every existing string (also when it equals its source)");
-#if (OP == 1 || (OP >= 6 && OP <= 13) || OP == 16) && MAXS >= VP_SSO
+#if (OP == 1 || (OP >= 6 && OP <= 13) || OP == 16 || OP == 17 || OP == 18 || OP == 19 || OP == 21) && MAXS >= VP_SSO
     if (r.f0.f1 >= VP_SSO) REACH("heap-backed result");
 #endif
   }
